@@ -1156,6 +1156,26 @@ def derived_cases(rng, tier, dv):
                 break
         term = '{| d_dv := %s; d_a := %s; d_steps := %s; d_out := %s |}' % (dvs, coq_obj(S), C.lst(steps), out)
         cs.add(term, {'S': repr(S)[:400], 'steps': whats, 'out': out[:200]}, (repr(S), repr(whats)))
+    # heterogeneous nested product spaces (depth 2-3, unequal components) x every index form
+    for _ in range(150 if tier == 'quick' else 900):
+        t = _gen_tree(rng, rng.choice([2, 2, 3]), hetero=rng.random() < 0.85)
+        if isinstance(t, int):
+            continue
+        S = _tree_desc(t)
+        if rng.random() < 0.3:
+            S = ('prod', S[1], gen_w(rng, kind='KPs', allow_array=False), S[3])
+        idx = _gen_tree_index(rng, t)
+        try:
+            oS = build(S, ctx)
+        except Exception:
+            continue
+        try:
+            out = obs_res(lambda: oS[idx], ctx)
+        except Exception:
+            out = 'ErrType'
+        term = ('{| d_dv := %s; d_a := %s; d_steps := [(false, (DGetitem %s))]; d_out := %s |}'
+                % (dvs, coq_obj(S), coq_pidx(idx), out))
+        cs.add(term, {'tree': repr(t), 'idx': repr(idx), 'out': out[:200]}, ('hetero', repr(t), repr(idx)))
     # the full dtype table x space kinds x counterpart chains (caches of real/complex spaces)
     ALLDT = [d for d in DTYPES if d not in ('O',)]
     PATTERNS = [[(False, 'C'), (False, 'R')], [(False, 'R'), (False, 'C')], [(False, 'C'), (True, 'R'), (False, 'C')],
@@ -2404,11 +2424,282 @@ def probe_array_views(rng, tier, out):
     out.append(C.Probe(ok, 'array-views-grid-intv-partition', 'coordinate arrays given as views/copies/lists: equality by value, equal hashes', rp))
 
 
+
+# --------------------------------------------------------------------- heterogeneous nested product spaces: indexing
+_HN_SRC = r"""
+import numpy as np, odl, warnings
+warnings.simplefilter('ignore')
+
+def build_tree(t):
+    # t: int n -> rn(n); list -> ProductSpace of the subtrees
+    if isinstance(t, int):
+        return odl.rn(t)
+    return odl.ProductSpace(*[build_tree(c) for c in t]) if t else odl.ProductSpace(field=odl.RealNumbers())
+
+def tree_of(space):
+    if isinstance(space, odl.ProductSpace):
+        return [tree_of(s) for s in space.spaces]
+    return int(space.shape[0])
+
+class Bad(Exception):
+    pass
+
+def ref_getitem(t, idx):
+    # the selection an index expression denotes on a nested list of component spaces
+    if isinstance(t, int):
+        raise Bad()
+    if isinstance(idx, tuple):
+        if not idx:
+            return t
+        i, rest = idx[0], idx[1:]
+        if isinstance(i, int):
+            if not -len(t) <= i < len(t):
+                raise Bad()
+            return ref_getitem(t[i], rest) if rest else t[i]
+        sel = t[i]
+        if not rest:
+            return sel
+        if not sel:
+            raise Bad()
+        return [ref_getitem(c, rest) for c in sel]
+    if isinstance(idx, int):
+        if not -len(t) <= idx < len(t):
+            raise Bad()
+        return t[idx]
+    if isinstance(idx, slice):
+        return t[idx]
+    return [t[i] for i in idx] if all(-len(t) <= i < len(t) for i in idx) else (_ for _ in ()).throw(Bad())
+
+def one_like(space):
+    return space.one()
+
+def check(tree, idx):
+    S = build_tree(tree)
+    probs = []
+    try:
+        want = ref_getitem(tree, idx)
+    except Bad:
+        want = Bad
+    try:
+        sub = S[idx]
+        got = tree_of(sub)
+    except (IndexError, ValueError, TypeError):
+        sub, got = None, Bad
+    def has_empty(w):
+        return isinstance(w, list) and (not w or any(has_empty(c) for c in w))
+    if want is not Bad and has_empty(want):
+        want_ok = (got == want or got is Bad)     # an empty (sub-)selection may have no field to deduce
+    else:
+        want_ok = (got == want)
+    if not want_ok:
+        probs.append(('space[idx]', got if got is not Bad else 'raises', want if want is not Bad else 'raises'))
+    if sub is not None and isinstance(sub, odl.ProductSpace) and got != []:
+        if len(sub) != len(want) if want is not Bad else False:
+            probs.append(('len', len(sub)))
+        # the element sliced the same way lives in that space
+        x = one_like(S)
+        try:
+            xs = x[idx]
+        except Exception as e:
+            xs = None
+        if xs is not None and hasattr(xs, 'space'):
+            if tree_of(xs.space) == got:
+                if not (xs.space == sub and xs in sub and sub == xs.space):
+                    probs.append(('x[idx].space != space[idx]', repr(xs.space), repr(sub)))
+            elif isinstance(idx, tuple) and len(idx) > 1 and not isinstance(idx[0], int):
+                pass      # recorded finding pspace-element-getitem-tuple (element side)
+            else:
+                probs.append(('x[idx].space structure', tree_of(xs.space), got))
+    return probs
+"""
+
+
+def _gen_tree(rng, depth, hetero=True):
+    if depth == 0:
+        return rng.choice([1, 2, 3, 4, 5])
+    n = rng.choice([1, 2, 2, 3])
+    kids = [_gen_tree(rng, depth - 1 if rng.random() < 0.8 else 0, hetero) for _ in range(n)]
+    if not hetero and kids:
+        kids = [kids[0]] * n
+    return kids
+
+
+def _tree_desc(t):
+    """descriptor of the (unweighted, real) product-space tree"""
+    if isinstance(t, int):
+        return ('tensor', ((t,), 'float64', ('const', 'KNpy', 1.0, 2.0)))
+    return ('prod', tuple(_tree_desc(c) for c in t), ('const', 'KPs', 1.0, 2.0), 'real')
+
+
+def _gen_tree_index(rng, t, depth=0):
+    n = len(t) if isinstance(t, list) else 2
+    r = rng.random()
+    if r < 0.15:
+        return rng.randrange(-n, n) if n else 0
+    if r < 0.3:
+        return gen_slice(rng, n)
+    if r < 0.4:
+        return [rng.randrange(-n, n) for _ in range(rng.choice([1, 2, 3]))] if n else []
+    k = rng.choice([1, 2, 2, 3])
+    out = []
+    for _ in range(k):
+        out.append(gen_slice(rng, n) if rng.random() < 0.55 else (rng.randrange(-n, n) if n else 0))
+    out = tuple(slice(None) if (isinstance(i, slice) and i.step == 0) else i for i in out)
+    if rng.random() < 0.35:
+        out = (slice(None),) + out[1:] if out else (slice(None),)
+    return out
+
+
+def probe_hetero_nested(rng, tier, out):
+    """space[idx] on product spaces with UNEQUAL components, nested 2-3 deep, for ints, (stepped, negative)
+    slices, lists and tuples: the selection is the one a nested-list reference gives; the element sliced the
+    same way lives in that space (x[idx].space == space[idx], membership, len)."""
+    env = {}
+    exec(_HN_SRC, env)
+    n = 200 if tier == 'quick' else 1500
+    fixed = [([[2, 3], [4, 5]], (slice(None), 0)), ([[2, 3], [4, 5]], (slice(None), 1)), ([[2, 3], [4, 5]], (slice(None, None, -1), 0)),
+             ([[2, 3], [4, 5], [1, 2]], (slice(0, 3, 2), -1)), ([[[1, 2], [3]], [[4, 5], [2]]], (slice(None), 0, 1)),
+             ([[[1, 2], [3]], [[4, 5], [2]]], (slice(None), slice(None), 0)), ([[2, 3], [4, 5]], (1, slice(None))),
+             ([[2, 3], [4, 5]], [1, 0]), ([[2, 3], [4, 5]], slice(None, None, -1))]
+    cases = list(fixed)
+    for _ in range(n):
+        t = _gen_tree(rng, rng.choice([2, 2, 3]))
+        if isinstance(t, int):
+            continue
+        idx = _gen_tree_index(rng, t)
+        if isinstance(idx, slice) and idx.step == 0:
+            continue
+        cases.append((t, idx))
+    for t, idx in cases:
+        try:
+            probs = env['check'](t, idx)
+        except Exception as e:
+            probs = [('probe-raised', repr(e))]
+        form = ('tuple-' + ('slice' if isinstance(idx[0], slice) else 'int') if isinstance(idx, tuple) and idx else
+                type(idx).__name__)
+        out.append(C.Probe(not probs, 'pspace-hetero-getitem-%s' % form,
+                           'heterogeneous nested product space: space[idx] is the reference selection and x[idx] lives in it',
+                           _HN_SRC + "\nobserved = check(%r, %r); ok = not observed\n" % (t, idx), detail=probs[:4]))
+
+
+# --------------------------------------------------------------------- constructor keywords: one keyword differs
+# (constructor expression template, keyword, value a, value b, role): role 'identity' = the keyword is part of the
+# identity of the object (different values -> unequal objects), 'cosmetic' = it is not (equal objects, equal hashes)
+_KW_HEAD = ("import numpy as np, odl, warnings\nwarnings.simplefilter('ignore')\n"
+            "from odl.space.weighting import MatrixWeighting\nfrom odl.space.npy_tensors import NumpyTensorSpaceConstWeighting as NC, NumpyTensorSpaceArrayWeighting as NA\n"
+            "from odl.space.pspace import ProductSpaceConstWeighting as PC\n"
+            "W = np.array([1.0, 2.0, 3.0]); M = np.eye(3); f = lambda x, y=None: 1.0; g = lambda x, y=None: 2.0\n"
+            "part = odl.uniform_partition(0, 1, 3); ts = odl.rn(3)\n")
+KEYWORD_TABLE = [
+    ('odl.DiscretizedSpace(part, ts, **kw)', 'axis_labels', "('a',)", "('b',)", 'cosmetic'),
+    ('odl.uniform_discr(0, 1, 3, **kw)', 'axis_labels', "('a',)", "('b',)", 'cosmetic'),
+    ('odl.uniform_discr(0, 1, 3, **kw)', 'dtype', "'float32'", "'float64'", 'identity'),
+    ('odl.uniform_discr(0, 1, 3, **kw)', 'nodes_on_bdry', 'True', 'False', 'identity'),
+    ('odl.uniform_discr(0, 1, 3, **kw)', 'exponent', '1.0', '2.0', 'identity'),
+    ('odl.uniform_discr(0, 1, 3, **kw)', 'weighting', '2.0', '3.0', 'identity'),
+    ('odl.uniform_discr(0, 1, 3, **kw)', 'impl', "'numpy'", "'numpy'", 'cosmetic'),
+    ('odl.uniform_discr([0, 0], [1, 1], (3, 3), **kw)', 'nodes_on_bdry', '[True, False]', '[False, True]', 'identity'),
+    ('odl.NumpyTensorSpace(3, **kw)', 'dtype', "'float32'", "'float64'", 'identity'),
+    ('odl.NumpyTensorSpace(3, float, **kw)', 'exponent', '1.0', '2.0', 'identity'),
+    ('odl.NumpyTensorSpace(3, float, **kw)', 'weighting', '2.0', '3.0', 'identity'),
+    ('odl.NumpyTensorSpace(3, float, **kw)', 'weighting', 'W', 'W.copy()', 'identity'),
+    ('odl.NumpyTensorSpace(3, float, **kw)', 'inner', 'f', 'g', 'identity'),
+    ('odl.NumpyTensorSpace(3, float, **kw)', 'norm', 'f', 'g', 'identity'),
+    ('odl.NumpyTensorSpace(3, float, **kw)', 'dist', 'f', 'g', 'identity'),
+    ('odl.rn(3, **kw)', 'impl', "'numpy'", "'numpy'", 'cosmetic'),
+    ('odl.rn(3, **kw)', 'exponent', 'float("inf")', '2.0', 'identity'),
+    ('odl.cn(3, **kw)', 'dtype', "'complex64'", "'complex128'", 'identity'),
+    ('odl.tensor_space(3, **kw)', 'dtype', "'int32'", "'int64'", 'identity'),
+    ('odl.ProductSpace(odl.rn(2), 2, **kw)', 'exponent', '1.0', '2.0', 'identity'),
+    ('odl.ProductSpace(odl.rn(2), 2, **kw)', 'weighting', '2.0', '3.0', 'identity'),
+    ('odl.ProductSpace(odl.rn(2), 3, **kw)', 'weighting', 'W', 'W.copy()', 'identity'),
+    ('odl.ProductSpace(odl.rn(2), 2, **kw)', 'inner', 'f', 'g', 'identity'),
+    ('odl.ProductSpace(odl.rn(2), 2, **kw)', 'norm', 'f', 'g', 'identity'),
+    ('odl.ProductSpace(odl.rn(2), 2, **kw)', 'dist', 'f', 'g', 'identity'),
+    ('odl.ProductSpace(odl.rn(2), 2, **kw)', 'field', 'odl.RealNumbers()', 'odl.RealNumbers()', 'cosmetic'),
+    ('odl.uniform_grid(0, 1, 3, **kw)', 'nodes_on_bdry', 'True', 'False', 'identity'),
+    ('odl.uniform_partition(0, 1, 3, **kw)', 'nodes_on_bdry', 'True', 'False', 'identity'),
+    ('odl.uniform_partition(0, None, 4, **kw)', 'cell_sides', '0.25', '0.5', 'identity'),
+    ('odl.uniform_partition(min_pt=0, shape=4, **kw)', 'max_pt', '1.0', '2.0', 'identity'),
+    ('odl.IntervalProd(0, **kw)', 'max_pt', '1.0', '2.0', 'identity'),
+    ('odl.Strings(**kw)', 'length', '2', '3', 'identity'),
+    ('NC(2.0, **kw)', 'exponent', '1.0', '2.0', 'identity'),
+    ('PC(2.0, **kw)', 'exponent', '1.0', '2.0', 'identity'),
+    ('NA(W, **kw)', 'exponent', '1.0', '2.0', 'identity'),
+    ("MatrixWeighting(M, impl='numpy', **kw)", 'exponent', '1.0', '2.0', 'identity'),
+    ("MatrixWeighting(M, impl='numpy', exponent=1.5, **kw)", 'cache_mat_pow', 'True', 'False', 'cosmetic'),
+    ("MatrixWeighting(M, impl='numpy', exponent=1.5, **kw)", 'cache_mat_decomp', 'True', 'False', 'cosmetic'),
+    ("MatrixWeighting(M, impl='numpy', exponent=1.5, **kw)", 'precomp_mat_pow', 'True', 'False', 'cosmetic'),
+]
+
+
+def probe_keywords(rng, tier, out):
+    """Pairs of objects that differ in ONE constructor keyword: == symmetric; == implies equal hashes and
+    interchangeable dict keys; == holds exactly when the keyword is not part of the object's identity."""
+    for ctor, kw, a, b, role in KEYWORD_TABLE:
+        rp = (_KW_HEAD + "mk = lambda **kw: %s\nx = mk(%s=%s); y = mk(%s=%s); x2 = mk(%s=%s)\n" % (ctor, kw, a, kw, b, kw, a) +
+              "e = (x == y); observed = {'eq': e, 'eq_rev': (y == x), 'hash_eq': hash(x) == hash(y)}\n"
+              "ok = (e == (y == x)) and (not (x != y) == e)\n"
+              "if e:\n    ok = ok and hash(x) == hash(y) and {x: 1}.get(y) == 1 and len({x, y}) == 1\n"
+              "ok = ok and (x == x2) == (hash(x) == hash(x2) and True) if (x == x2) else ok\n"
+              "want = %r\nok = ok and (e == want)\nobserved['want_eq'] = want\n"
+              % ((role == 'cosmetic') or (a == b),))
+        env = {}
+        try:
+            exec(rp, env)
+            ok = bool(env['ok'])
+        except Exception as ex:
+            ok = False
+        cls = ctor.split('(')[0].replace('odl.', '')
+        out.append(C.Probe(ok, 'keyword-%s-%s' % (cls, kw),
+                           '%s: objects differing only in %s=%s / %s (%s keyword): ==, hash, dict key coherent' % (cls, kw, a, b, role), rp))
+
+
+def extra_coverage():
+    """Constructor keywords of the space / set / weighting classes (introspected) and which of them the
+    keyword probe family varies."""
+    import inspect
+    C.setup_impl_path()
+    import odl
+    from odl.space import weighting as W, npy_tensors as NT, pspace as PS
+    objs = {'NumpyTensorSpace': odl.NumpyTensorSpace, 'DiscretizedSpace': odl.DiscretizedSpace, 'ProductSpace': odl.ProductSpace,
+            'uniform_discr': odl.uniform_discr, 'rn': odl.rn, 'cn': odl.cn, 'tensor_space': odl.tensor_space,
+            'RectGrid': odl.RectGrid, 'uniform_grid': odl.uniform_grid, 'RectPartition': odl.RectPartition,
+            'uniform_partition': odl.uniform_partition, 'IntervalProd': odl.IntervalProd, 'Strings': odl.Strings,
+            'MatrixWeighting': W.MatrixWeighting, 'NumpyTensorSpaceConstWeighting': NT.NumpyTensorSpaceConstWeighting,
+            'NumpyTensorSpaceArrayWeighting': NT.NumpyTensorSpaceArrayWeighting,
+            'ProductSpaceConstWeighting': PS.ProductSpaceConstWeighting}
+    documented_kwargs = {'NumpyTensorSpace': ['weighting', 'dist', 'norm', 'inner', 'exponent'],
+                         'ProductSpace': ['field', 'weighting', 'dist', 'norm', 'inner', 'exponent'],
+                         'DiscretizedSpace': ['axis_labels'],
+                         'uniform_discr': ['nodes_on_bdry', 'weighting', 'exponent', 'axis_labels'],
+                         'MatrixWeighting': ['precomp_mat_pow', 'cache_mat_pow', 'cache_mat_decomp'],
+                         'rn': ['weighting', 'exponent', 'dist', 'norm', 'inner'], 'cn': ['weighting', 'exponent'],
+                         'tensor_space': ['weighting', 'exponent']}
+    varied = {}
+    for ctor, kw, a, b, role in KEYWORD_TABLE:
+        name = ctor.split('(')[0].replace('odl.', '')
+        name = {'NC': 'NumpyTensorSpaceConstWeighting', 'NA': 'NumpyTensorSpaceArrayWeighting', 'PC': 'ProductSpaceConstWeighting'}.get(name, name)
+        varied.setdefault(name, set()).add(kw)
+    rep = {}
+    for name, o in objs.items():
+        try:
+            params = [p.name for p in inspect.signature(o).parameters.values() if p.kind in (p.POSITIONAL_OR_KEYWORD, p.KEYWORD_ONLY)]
+        except (TypeError, ValueError):
+            params = []
+        allkw = sorted(set(params + documented_kwargs.get(name, [])) - {'self'})
+        rep[name] = {'keywords': allkw, 'varied_by_keyword_probes': sorted(varied.get(name, set())),
+                     'not_varied_alone': sorted(set(allkw) - varied.get(name, set()))}
+    return {'constructor_keywords': rep,
+            'note': 'positional data (shape, min_pt, vectors, partition, tspace, spaces, constants, arrays) are varied by the '
+                    'descriptor generators of the correspondence instead of the keyword family'}
+
+
 def search(rng, broken):
     """Called when the translator, a proof or the correspondence broke and no probe has failed yet:
     the property oracles at thorough intensity; the first failing input that is not a listed finding."""
     known = C.load_findings(PID)
-    for fam in (probe_array_views, probe_near, probe_laws, probe_membership, probe_chains, probe_element,
+    for fam in (probe_keywords, probe_hetero_nested, probe_array_views, probe_near, probe_laws, probe_membership, probe_chains, probe_element,
                 probe_derived, probe_indexing):
         out = []
         try:
@@ -2434,6 +2725,8 @@ def probes(rng, tier):
     probe_indexing(rng, tier, out)
     probe_byaxis_in(rng, tier, out)
     probe_chains(rng, tier, out)
+    probe_hetero_nested(rng, tier, out)
+    probe_keywords(rng, tier, out)
     return out
 
 
